@@ -250,9 +250,13 @@ def safe_execute(machine, history) -> Outcome:
         return out
 
 
+HISTORY_WALL_LIMIT = float(os.environ.get("VSIM_HISTORY_WALL_LIMIT", "300"))
+
+
 def run_chunk(args):
     """Executed in a worker process: runs a list of indices, returns an aggregate."""
-    mname, tier, batch_seed, indices, want_digest, deadline = args
+    mname, tier, batch_seed, indices, want_digest, deadline = args[:6]
+    progress = args[6] if len(args) > 6 else None  # file in which this worker notes the index it is about to run
     import faulthandler
 
     machine = get_machine(mname)
@@ -274,7 +278,15 @@ def run_chunk(args):
         if deadline is not None and time.time() > deadline:
             agg["skipped"] += 1
             continue
-        faulthandler.dump_traceback_later(300, exit=True)
+        # step caps do not bound a slow iterative solve on a loaded machine (or a hang in native code): a history over the
+        # wall limit ends this worker process; the parent (runner.run_machine_batch) reads the progress file, abandons
+        # that one history (counted, never judged) and re-runs the rest of the chunk in a fresh worker
+        if progress:
+            with open(progress, "w") as fh:
+                fh.write(str(idx))
+        faulthandler.dump_traceback_later(HISTORY_WALL_LIMIT, exit=True)
+        if os.environ.get("VSIM_SELFTEST_DIE_AT") == "%s:%d" % (mname, idx):
+            os._exit(9)  # self-test of the runner: a worker that dies at this history (as the wall-limit exit does)
         try:
             history, out = run_one(machine, tier, batch_seed, idx)
         finally:
@@ -297,6 +309,9 @@ def run_chunk(args):
             agg["digests"][idx] = out.log.hexdigest()
         if len(agg["samples"]) < 1 and out.nontrivial:
             agg["samples"].append(machine.render(history))
+    if progress:
+        with open(progress, "w") as fh:
+            fh.write("done")
     return agg
 
 
